@@ -249,7 +249,7 @@ pub fn run_function(cx: &Cx, e: &FnEntry, opts: PoolOpts, max_groups: usize, see
         }
         let Some(pools) = ArgPools::new(types, opts) else { continue };
         let mut rng = Rng::derive(seed, &[45, fp_str(&e.label), gi as u64]);
-        let n_rows = if arity == 0 { 1 } else if cx.args.stage == "memcheck" { 4 } else { cx.args.bound("scalar_rows", 12, 32) as usize };
+        let n_rows = if arity == 0 { 1 } else if cx.args.stage == "memcheck" { 4 } else { cx.args.bound("scalar_rows", 12, 64) as usize };
         let rows: Vec<Vec<ScalarValue>> = (0..n_rows).map(|_| pools.row(&mut rng)).collect();
         let col_of = |idx: &[usize]| -> Vec<Vec<ScalarValue>> { (0..arity).map(|j| idx.iter().map(|i| rows[*i][j].clone()).collect()).collect() };
         let selftest = cx.selftest;
